@@ -14,7 +14,8 @@ RULE = ("address values of 10 classes (IPv4, IPv4 edges, IPv4-mapped, random IPv
         "null members, CRLF, unterminated last line, one bad line of 9 kinds at a random position, overlong line) with Get on both "
         "address forms; composition chains ARP frames -> processor -> JSON logger -> FillCache -> cache stage -> tcp/udp/icmp "
         "filler with repeated addresses and gateway present/absent, a third of them with errors logged through the same logger "
-        "and two in five with malformed ARP frames mixed in; 9 runs of 2000-4000 requests for distinct hosts through the cache stage "
+        "and two in five with malformed ARP frames mixed in, one reply in five with an odd but valid sender MAC (all-zero, broadcast, "
+        "multicast); 9 runs of 2000-4000 requests for distinct hosts through the cache stage "
         "and ONE tcp / udp / icmp filler shared by 2-16 workers of NewPacketMultiGenerator (per frame: Ethernet destination = "
         "resolution of the frame's own IPv4 destination); getGatewayMAC on this host and on a multi-homed host (network "
         "namespace with two uplinks of different metric and a stub interface, caches knowing both / own / other / no gateway); non-trivial = accepted text / loaded file with "
